@@ -2,7 +2,7 @@
    (sessions of public compiler operations, with exceptions at arbitrary positions). *)
 From Coq Require Import List Bool ZArith NArith QArith Qabs.
 Import ListNotations.
-From Femto Require Import Base.Num Ctl.Tok Ctl.Machine Geo.Rigid Pgm.Ops Harness.Util.
+From Femto Require Import Base.Num Ctl.Tok Ctl.Machine Geo.Rigid Pgm.Ops Pgm.Reuse Harness.Util.
 Open Scope Z_scope.
 
 Record case := {
@@ -65,8 +65,8 @@ Definition monitors (c : cfg) (model_file : list tok) (k : case) : list bool :=
         negb (existsb (N.eqb E_notloaded) (errors ev)) ]      (* call / remove of a program that is not loaded *)
   end.
 
-Definition check (k : case) : N :=
-  match session (k_cfg k) (k_ops k) with
+Definition check_result (r : session_result) (k : case) : N :=
+  match r with
   | NotWritten kind =>
       code_of [negb (k_written k); N.eqb kind (k_raised k)]
   | Written file dw o =>
@@ -77,6 +77,17 @@ Definition check (k : case) : N :=
         q_close dw (k_dwell k) ] ++
         (if k_written k then monitors (k_cfg k) file k else []))
   end.
+
+Definition check (k : case) : N := check_result (session (k_cfg k) (k_ops k)) k.
+
+(* the second file of a compiler object that has already written one ([k2_first]: the operations of the first session) *)
+Record case2 := { k2_first : list op; k2 : case }.
+Definition check2 (k : case2) : N :=
+  match fst (session_gen c0 (k_cfg (k2 k)) (k2_first k)) with
+  | NotWritten _ => 0%N                      (* nothing was flushed: the instruction list of the first session is still there *)
+  | Written _ _ _ => check_result (second_file (k_cfg (k2 k)) (k2_first k) (k_ops (k2 k))) (k2 k)
+  end.
+Definition failing2 (cs : list case2) : list (N * N) := failing_from check2 0 cs.
 
 Definition failing (cs : list case) : list (N * N) := failing_from check 0 cs.
 
